@@ -2042,9 +2042,13 @@ where
     }
 
     fn reset_buffered_state(&mut self) {
+        // The statements parsed in a batch that is dropped were never prepared
+        // anywhere: a later Bind must not find them.
+        while let Some(name) = self.buffered_parse_names.pop_front() {
+            self.prepared_statements.remove(&name);
+        }
         self.buffer.clear();
         self.extended_protocol_data_buffer.clear();
-        self.buffered_parse_names.clear();
         self.response_message_queue_buffer.clear();
     }
 
